@@ -99,10 +99,11 @@ Qed.
 (* ================================================================================================ CC_SList *)
 (** The singly linked list: same vocabulary with an [s] prefix (SList/SListModel.v, SList/SListProofs3.v). The ideal
     object differs where the documented contract differs: add_all_at / splice_at need index < size, to_array of an
-    empty list is an empty array, index_of compares pointers. There is no backward traversal. *)
+    empty list is an empty array, index_of compares pointers. There is no backward traversal. As for the list,
+    only splice / splice_at need both lists to use the same allocator family ([smem_ok]). *)
 
 Theorem C04_slist_wf_preserved : forall cmp pred w hd o,
-  swinv w -> exists out w', sl_step cmp pred w hd o = Ok (out, w') /\ swinv w'.
+  swinv w -> smem_ok w o -> exists out w', sl_step cmp pred w hd o = Ok (out, w') /\ swinv w'.
 Proof. exact slist_wf_preserved. Qed.
 Print Assumptions C04_slist_wf_preserved.
 
@@ -122,14 +123,15 @@ Theorem C04_slist_wf_explicit : forall w, swinv w ->
 Proof. exact swinv_slist_wf. Qed.
 Print Assumptions C04_slist_wf_explicit.
 
-Theorem C04_slist_step_refines : forall cmp pred w hd o, swinv w ->
+Theorem C04_slist_step_refines : forall cmp pred w hd o, swinv w -> smem_ok w o ->
   exists out w' fl, sl_step cmp pred w hd o = Ok (out, w') /\ swinv w' /\
     (out, swabs w') = sspec_step cmp pred (swabs w) hd o fl /\ aframe (swal w) (swal w') /\
-    (fl = true -> plan (swal w) <> [] \/ limit (swal w) < sreq_bytes (spsel (swabs w) hd) o).
+    (fl = true -> plan (swal w) <> [] \/ limit (swal w) < sreq_bytes (spsel (swabs w) hd) o) /\
+    (sl_mem (swa w') = sl_mem (swa w) /\ sl_mem (swb w') = sl_mem (swb w)).
 Proof. exact slist_step_refines. Qed.
 Print Assumptions C04_slist_step_refines.
 
-Theorem C04_slist_bulk : forall cmp pred w hd o, swinv w ->
+Theorem C04_slist_bulk : forall cmp pred w hd o, swinv w -> smem_ok w o ->
   exists out w' fl, sl_step cmp pred w hd o = Ok (out, w') /\ swinv w' /\
     (out, swabs w') = sspec_step cmp pred (swabs w) hd o fl /\
     match o with
@@ -143,24 +145,25 @@ Theorem C04_slist_bulk : forall cmp pred w hd o, swinv w ->
 Proof. exact slist_bulk. Qed.
 Print Assumptions C04_slist_bulk.
 
-Theorem C04_slist_run_refines : forall cmp pred mem a0 sa a1 sb a2 ops,
-  lok a0 -> live a0 = [] -> sl_new mem a0 = (CC_OK, Some sa, a1) -> sl_new mem a1 = (CC_OK, Some sb, a2) ->
+Theorem C04_slist_run_refines : forall cmp pred mema memb a0 sa a1 sb a2 ops,
+  lok a0 -> live a0 = [] -> sl_new mema a0 = (CC_OK, Some sa, a1) -> sl_new memb a1 = (CC_OK, Some sb, a2) ->
+  (shas_splice ops = true -> mema = memb) ->
   exists outs w' fls, sl_run cmp pred {| swa := sa; swb := sb; swal := a2 |} ops = Ok (outs, w') /\ swinv w' /\
     length fls = length ops /\ (outs, swabs w') = sspec_run cmp pred ([], []) ops fls /\
     (plan a0 = [] -> sfls_ok cmp pred (limit a0) ([], []) ops fls).
 Proof. exact slist_new_run_refines. Qed.
 Print Assumptions C04_slist_run_refines.
 
-Example C04_slist_inv_nonvacuous : exists w, swinv w /\ swabs w = ([3; 1; 2], [7]).
+Example C04_slist_inv_nonvacuous : exists w, swinv w /\ swabs w = ([3; 1; 2; 7], [7]).
 Proof.
   destruct (sl_new Conf (alloc_init [] W)) as [[st1 [sa|]] a1] eqn:E1; [|vm_compute in E1; discriminate].
-  destruct (sl_new Conf a1) as [[st2 [sb|]] a2] eqn:E2; [|vm_compute in E1; inversion E1; subst; vm_compute in E2; discriminate].
+  destruct (sl_new Libc a1) as [[st2 [sb|]] a2] eqn:E2; [|vm_compute in E1; inversion E1; subst; vm_compute in E2; discriminate].
   assert (st1 = CC_OK /\ st2 = CC_OK) as [-> ->].
   { vm_compute in E1. inversion E1; subst. vm_compute in E2. inversion E2; subst. auto. }
   assert (Hk : lok (alloc_init [] W)) by (split; [apply ledger_ok_init|cbn; lia]).
-  destruct (slist_new_run_refines cmp_val pred_even Conf (alloc_init [] W) sa a1 sb a2
-              [(SHA, SAddLast 1); (SHA, SAddLast 2); (SHB, SAddFirst 7); (SHA, SAddFirst 3)]
-              Hk eq_refl E1 E2) as (outs & w' & fls & E & Hw & _).
+  destruct (slist_new_run_refines cmp_val pred_even Conf Libc (alloc_init [] W) sa a1 sb a2
+              [(SHA, SAddLast 1); (SHA, SAddLast 2); (SHB, SAddFirst 7); (SHA, SAddFirst 3); (SHA, SAddAll)]
+              Hk eq_refl E1 E2 ltac:(cbn; discriminate)) as (outs & w' & fls & E & Hw & _).
   exists w'. split; [exact Hw|].
   vm_compute in E1. inversion E1; subst. vm_compute in E2. inversion E2; subst. vm_compute in E. inversion E; subst. reflexivity.
 Qed.
